@@ -600,11 +600,16 @@ def render_document(document, trivia):
 		for index, child in enumerate(children):
 			if index and trivia.rng:
 				lines += trivia.blank_lines(0.15)
-			if '#' == child[0][:1] and trivia.chance(0.15):
-				lines += [trivia.indent() + free_comment('')[0], '']
+			if '#' == child[0][:1] and trivia.chance(0.2):
+				# one to four unattached comment blocks (separated by empty lines) in front of a documented member
+				for _ in range(trivia.rng.choice([1, 1, 2, 3, 4])):
+					lines += [trivia.indent() + free_comment('')[0] for _ in range(trivia.rng.choice([1, 1, 2]))] + ['']
 			lines += [trivia.indent() + line for line in child]
-		if children and trivia.chance(0.1):
-			lines += trivia.blank_lines(0.5) + [trivia.indent() + free_comment('')[0]]
+		if children and trivia.chance(0.25):
+			# one to four unattached comment blocks at the end of the body (e.g. commented-out members kept as separate blocks)
+			lines += trivia.blank_lines(0.5)
+			for block in range(trivia.rng.choice([1, 2, 2, 3, 4])):
+				lines += ([''] if block else []) + [trivia.indent() + free_comment('')[0] for _ in range(trivia.rng.choice([1, 1, 2]))]
 	if trivia.chance(0.1):
 		lines += trivia.blank_lines(0.5) + free_comment('')
 	text = ''.join(line + (trivia.trailing() if trivia.rng and not line.lstrip().startswith('#') else '') + trivia.newline for line in lines)
